@@ -1,4 +1,5 @@
 """C02  No silent data loss; conflicts keep both versions; delete never beats a newer edit; corrupt content is not propagated."""
+from .. import shims  # noqa: F401  (must precede any cloudsync import)
 import cloudsync.exceptions as ex
 
 from ..core import ok, violation
